@@ -336,6 +336,13 @@ fn fresh_world(w: usize, huge_slots: bool) -> (Tower, Arc<Node>, std::path::Path
     for op in &setup {
         setup_op(&node, &mut tower, op).expect("setup");
     }
+    if huge_slots {
+        // a user with many appointments: replies that grow with the user's data (get_subscription_info lists every locator)
+        setup_op(&node, &mut tower, &Op::Register { u: 5 }).expect("setup");
+        for chan in 50..190u8 {
+            setup_op(&node, &mut tower, &add(5, chan)).expect("setup");
+        }
+    }
     (tower, node, dir)
 }
 
@@ -371,7 +378,7 @@ impl Campaign for C15 {
             1 => any::<u8>().prop_map(Mutation::BigNumber),
         ];
         let body = prop_oneof![
-            12 => (prop_oneof![0u8..5, Just(9u8)], 0u8..6, prop_oneof![4 => Just(0u16), 1 => 0u16..1100], mutation).prop_map(|(u, chan, blob_len, mutation)| Body::Structured { u, chan, blob_len, mutation }),
+            12 => (prop_oneof![6 => 0u8..6, 1 => Just(9u8)], 0u8..6, prop_oneof![4 => Just(0u16), 1 => 0u16..1100], mutation).prop_map(|(u, chan, blob_len, mutation)| Body::Structured { u, chan, blob_len, mutation }),
             2 => proptest::collection::vec(any::<u8>(), 0..300).prop_map(Body::Raw),
             2 => prop_oneof![Just("{".to_string()), Just("[]".to_string()), Just("null".to_string()), Just("\"str\"".to_string()), Just("{}".to_string()), Just("\u{feff}{}".to_string()), Just("{\"user_id\": }".to_string()), "[ -~]{0,80}".prop_map(|s| s)].prop_map(Body::Text),
             1 => (1u16..3000).prop_map(Body::Nested),
@@ -527,7 +534,7 @@ pub fn run(ctx: &Ctx) -> i32 {
     let stats = runner::run_campaign(&camp, ctx, if ctx.thorough() { 8000 } else { 1500 });
     let mut ev = Evidence::default();
     ev.level = "exploration".into();
-    ev.rule = "sequences of 1-11 HTTP requests over raw TCP to the real warp router in front of the real tower (fresh tower per sequence, prepared with fresh / watched / responded / expired / out-of-slots users; in 15% of the sequences bitcoind is flagged unreachable): valid bodies of the four endpoints mutated structurally (drop / null / retype / empty / odd-length / non-hex / longer / shorter / huge / non-ASCII / extra / wrapped / duplicate key / padded to limit-2..limit+2 / trailing garbage / negative / float / 2^32), raw bytes, odd JSON texts, nesting up to 3000, every method, known and unknown paths; oracle: status in {200, 4xx, 503}, documented JSON error object for well-addressed requests, 200 bodies parse as the documented reply, database identical after every non-200, a reply always arrives. counters.requests = HTTP requests sent. Non-trivial = at least one request got past HTTP-level validation into the tower; distinct = distinct sets of (status, error_code) seen.".into();
+    ev.rule = "sequences of 1-11 HTTP requests over raw TCP to the real warp router in front of the real tower (fresh tower per sequence, prepared with fresh / watched / responded / expired / out-of-slots users and, in the worlds with maximal subscriptions, a user holding 140 appointments; in 15% of the sequences bitcoind is flagged unreachable): valid bodies of the four endpoints mutated structurally (drop / null / retype / empty / odd-length / non-hex / longer / shorter / huge / non-ASCII / extra / wrapped / duplicate key / padded to limit-2..limit+2 / trailing garbage / negative / float / 2^32), raw bytes, odd JSON texts, nesting up to 3000, every method, known and unknown paths; oracle: status in {200, 4xx, 503}, documented JSON error object for well-addressed requests, 200 bodies parse as the documented reply, database identical after every non-200, a reply always arrives. counters.requests = HTTP requests sent. Non-trivial = at least one request got past HTTP-level validation into the tower; distinct = distinct sets of (status, error_code) seen.".into();
     ev.assumptions = vec![
         "every request is syntactically valid HTTP/1.1 with a Content-Length header".into(),
         "the gRPC hop is tonic over loopback, as in production".into(),
